@@ -46,7 +46,21 @@ func init() {
 	gens["C17"] = genC17
 }
 
+// c15Sweep: fault runs come in families of c15Sweep consecutive fault-run slots that share one
+// incidence structure; the failing Delete ordinal sweeps 0..c15Sweep-1, i.e. every delete
+// position of the family's InvalidateByLabels call is failed once (positions beyond the last
+// Delete call fire nothing and are counted as such).
+const c15Sweep = 12
+
 func genC15(r *rand.Rand, run int, _ string) *Scenario {
+	failPos := -1
+
+	if run%3 == 1 {
+		slot := run / 3
+		failPos = slot % c15Sweep
+		r = newRng(genSeed, uint64(slot/c15Sweep), 1515) // same structure for the whole family
+	}
+
 	sc := &Scenario{Engine: "tr", TickNs: pick(r, int64(1), 100, 1000), MapSeed: r.Uint64(), JitterSeed: r.Uint64()}
 	sc.NoFastPath = chance(r, 0.1)
 	ix := &IndexScenario{FailAt: -1}
@@ -118,7 +132,7 @@ func genC15(r *rand.Rand, run int, _ string) *Scenario {
 		sc.Sched = SchedSpec{Kind: "random", Seed: r.Uint64()}
 	case 1: // a deleter failure at every position, then retry
 		ix.Clients = [][]IndexOp{{inv()}}
-		ix.FailAt = r.IntN(1 + 2*nk*len(ix.Caches)/len(names))
+		ix.FailAt = failPos
 		ix.Retry = true
 		sc.Sched = SchedSpec{Kind: "random", Seed: r.Uint64()}
 	default: // concurrent
